@@ -139,16 +139,21 @@ type Thread struct {
 	npcs       int
 	single     [1]scase
 	fn         func()
+	curTok     *tok   // race variant: token released when the current operation was announced
+	acq        []*tok // race variant: tokens to acquire when the operation has completed
 }
 
 type core struct {
-	id     int
-	name   string
-	cap    int
-	buf    []interface{}
-	closed bool
-	sendq  []*waiter
-	recvq  []*waiter
+	id       int
+	name     string
+	cap      int
+	btok     []*tok // race variant: sender token per buffered value
+	free     []*tok // race variant: tokens of the receives that freed buffer slots
+	closeTok *tok
+	buf      []interface{}
+	closed   bool
+	sendq    []*waiter
+	recvq    []*waiter
 }
 
 type waiter struct {
@@ -225,6 +230,7 @@ type Sched struct {
 	mainDone bool
 	trace    []string
 	ctxSeq   int
+	tdTok    *tok // race variant: everything every thread did before its last announcement
 }
 
 // S is the scheduler of the execution in progress (nil outside Run).
@@ -237,7 +243,7 @@ var epoch = time.Date(2020, 1, 1, 0, 0, 0, 0, time.UTC)
 // goroutine created for it has exited.
 func Run(cfg Config, ch Chooser, main func()) *Result {
 	cfg.defaults()
-	s := &Sched{cfg: cfg, chooser: ch, finished: make(chan struct{})}
+	s := &Sched{cfg: cfg, chooser: ch, finished: make(chan struct{}), tdTok: newTok()}
 	h := fnv.New64a()
 	s.hash = h.Sum64()
 	S = s
@@ -316,6 +322,9 @@ func (t *Thread) run(s *Sched) {
 			return
 		}
 		// normal exit
+		if raceOn {
+			rrelmerge(s.tdTok)
+		}
 		t.state = tsDone
 		s.live--
 		if t.ID == 0 {
@@ -325,7 +334,9 @@ func (t *Thread) run(s *Sched) {
 		}
 		s.dispatch(nil)
 	}()
+	rdisable()
 	<-t.wake
+	renable()
 	if s.aborting {
 		t.exiting = true
 		return
@@ -356,6 +367,7 @@ func (s *Sched) finish(t *Thread, verdict, msg, stack string) {
 // abortHere ends the execution from inside a shim operation of the running thread.
 func (s *Sched) abortHere(t *Thread, verdict, msg string) {
 	s.finish(t, verdict, msg, "")
+	racq(s.tdTok)
 	runtime.Goexit()
 }
 
@@ -377,6 +389,11 @@ func (s *Sched) visible(t *Thread) bool {
 	if s.steps > s.cfg.MaxSteps {
 		s.abortHere(t, VLivelock, fmt.Sprintf("more than %d visible operations", s.cfg.MaxSteps))
 	}
+	if raceOn {
+		t.curTok = newTok()
+		rrel(t.curTok)
+		rrelmerge(s.tdTok)
+	}
 	if s.completable(t) {
 		t.state = tsReady
 		t.readySince = s.steps
@@ -384,6 +401,12 @@ func (s *Sched) visible(t *Thread) bool {
 		s.block(t)
 	}
 	s.dispatch(t)
+	if raceOn {
+		for _, k := range t.acq {
+			racq(k)
+		}
+		t.acq = t.acq[:0]
+	}
 	if t.op.panicMsg != "" {
 		m := t.op.panicMsg
 		t.op.panicMsg = ""
@@ -486,7 +509,11 @@ func (s *Sched) wakeWith(w *waiter, val interface{}, ok bool, panicMsg string) {
 func removeWaiter(q []*waiter, t *Thread) []*waiter {
 	for i, w := range q {
 		if w.t == t {
-			copy(q[i:], q[i+1:])
+			// (element-wise: the copy builtin and variadic append go through runtime hooks that the
+			// race variant's detector sees even in this uninstrumented package)
+			for j := i; j+1 < len(q); j++ {
+				q[j] = q[j+1]
+			}
 			q[len(q)-1] = nil
 			return q[:len(q)-1]
 		}
@@ -528,7 +555,12 @@ func (s *Sched) order(self *Thread) []*Thread {
 		}
 	}
 	if self != nil && self.state == tsReady {
-		rs = append([]*Thread{self}, rs...)
+		out := make([]*Thread, 0, len(rs)+1)
+		out = append(out, self)
+		for _, r := range rs {
+			out = append(out, r)
+		}
+		rs = out
 	}
 	return rs
 }
@@ -678,13 +710,17 @@ func (s *Sched) dispatch(self *Thread) {
 		if next == self {
 			return
 		}
+		rdisable()
 		next.wake <- struct{}{}
 		if self == nil {
+			renable()
 			return
 		}
 		<-self.wake
+		renable()
 		if s.aborting {
 			self.exiting = true
+			racq(s.tdTok) // torn-down threads run their deferred calls after everything else
 			runtime.Goexit()
 		}
 		return
@@ -719,9 +755,21 @@ func (s *Sched) perform(a alt) {
 					if s.cfg.OnRendezvous != nil {
 						s.cfg.OnRendezvous(t.Role, k.recvq[0].t.Role, k.name)
 					}
+					if raceOn {
+						w := k.recvq[0]
+						t.acq = append(t.acq, w.t.curTok)
+						w.t.acq = append(w.t.acq, t.curTok)
+					}
 					s.wakeWith(k.recvq[0], c.val, true, "")
 				default:
 					k.buf = append(k.buf, c.val)
+					if raceOn {
+						k.btok = append(k.btok, t.curTok)
+						if len(k.free) > 0 {
+							t.acq = append(t.acq, k.free[0])
+							k.free = k.free[1:]
+						}
+					}
 				}
 			} else {
 				switch {
@@ -729,10 +777,20 @@ func (s *Sched) perform(a alt) {
 					o.val, o.ok = k.buf[0], true
 					k.buf[0] = nil
 					k.buf = k.buf[1:]
+					if raceOn && len(k.btok) > 0 {
+						t.acq = append(t.acq, k.btok[0])
+						k.btok = k.btok[1:]
+					}
 					if len(k.sendq) > 0 {
 						w := k.sendq[0]
 						k.buf = append(k.buf, w.val)
+						if raceOn {
+							k.btok = append(k.btok, w.t.curTok)
+							w.t.acq = append(w.t.acq, t.curTok) // this receive freed the slot the blocked send completes into
+						}
 						s.wakeWith(w, nil, false, "")
+					} else if raceOn {
+						k.free = append(k.free, t.curTok)
 					}
 				case len(k.sendq) > 0:
 					w := k.sendq[0]
@@ -740,9 +798,16 @@ func (s *Sched) perform(a alt) {
 					if s.cfg.OnRendezvous != nil {
 						s.cfg.OnRendezvous(w.t.Role, t.Role, k.name)
 					}
+					if raceOn {
+						t.acq = append(t.acq, w.t.curTok)
+						w.t.acq = append(w.t.acq, t.curTok)
+					}
 					s.wakeWith(w, nil, false, "")
 				default: // closed
 					o.val, o.ok = nil, false
+					if raceOn {
+						t.acq = append(t.acq, k.closeTok)
+					}
 				}
 			}
 		}
@@ -757,7 +822,11 @@ func (s *Sched) perform(a alt) {
 		default:
 			cid = k.id
 			k.closed = true
+			k.closeTok = t.curTok
 			for len(k.recvq) > 0 {
+				if raceOn {
+					k.recvq[0].t.acq = append(k.recvq[0].t.acq, t.curTok)
+				}
 				s.wakeWith(k.recvq[0], nil, false, "")
 			}
 			for len(k.sendq) > 0 {
@@ -767,6 +836,9 @@ func (s *Sched) perform(a alt) {
 	case opWgAdd:
 		wg := o.wg
 		wg.n += o.n
+		if raceOn && o.n < 0 {
+			wg.toks = append(wg.toks, t.curTok)
+		}
 		if wg.n < 0 {
 			o.panicMsg = "sync: negative WaitGroup counter"
 		} else if wg.n == 0 {
@@ -774,25 +846,44 @@ func (s *Sched) perform(a alt) {
 				w.state = tsReady
 				w.op.kind = opResume
 				w.readySince = s.steps
+				if raceOn {
+					w.acq = appendToks(w.acq, wg.toks)
+				}
 			}
 			wg.waiters = nil
 		}
 	case opWgWait:
+		if raceOn {
+			t.acq = appendToks(t.acq, o.wg.toks)
+		}
 	case opLock:
 		o.mu.locked = true
+		if raceOn {
+			t.acq = appendToks(appendToks(t.acq, o.mu.toks), o.mu.rtoks)
+			o.mu.rtoks = nil
+		}
 	case opRLock:
 		o.mu.readers++
+		if raceOn {
+			t.acq = appendToks(t.acq, o.mu.toks)
+		}
 	case opUnlock:
 		if !o.mu.locked {
 			o.panicMsg = "sync: unlock of unlocked mutex"
 		}
 		o.mu.locked = false
+		if raceOn {
+			o.mu.toks = []*tok{t.curTok}
+		}
 		s.wakeLockers(o.mu)
 	case opRUnlock:
 		if o.mu.readers <= 0 {
 			o.panicMsg = "sync: RUnlock of unlocked RWMutex"
 		} else {
 			o.mu.readers--
+		}
+		if raceOn {
+			o.mu.rtoks = append(o.mu.rtoks, t.curTok)
 		}
 		s.wakeLockers(o.mu)
 	}
@@ -1014,4 +1105,11 @@ func SortedKeys[K interface {
 func IsFuel(r interface{}) bool {
 	_, ok := r.(fuelPanic)
 	return ok
+}
+
+func appendToks(dst, src []*tok) []*tok {
+	for _, k := range src {
+		dst = append(dst, k)
+	}
+	return dst
 }
